@@ -80,6 +80,9 @@ def assume(cond):
 def side_obligation(name, goal):
     c = cur()
     g = goal.t if isinstance(goal, SymBool) else (z3.BoolVal(bool(goal)) if isinstance(goal, bool) else goal)
+    prem = [b.range_cond() for b in c.binders] + list(c.__dict__.get("guards", []))
+    if prem:
+        g = z3.Implies(z3.And(*prem), g)
     c.side.append((name, c.hyps(), g))
 
 
@@ -163,6 +166,10 @@ class SymBool:
         if z3.is_false(t):
             return False
         c = cur()
+        if c.binders:
+            from .snp import _mentions_binder
+            if _mentions_binder(t):
+                raise Unsupported("branch on a generic loop variable outside a summarisable conditional")
         pos = len(c.decisions)
         if pos < len(c.prefix):
             d = c.prefix[pos]
@@ -474,16 +481,44 @@ def _divmod(a, b):
         q = (-ta) / (-tb)
         return z3.simplify(q), z3.simplify(ta - q * tb)
     # symbolic divisor: one quotient/remainder witness pair per distinct (dividend, divisor)
-    memo = cur().__dict__.setdefault("divmemo", {})
-    key = (z3.simplify(ta).get_id(), cb.get_id())
+    c = cur()
+    memo = c.__dict__.setdefault("divmemo", {})
+    sa = z3.simplify(ta)
+    key = (sa.get_id(), cb.get_id())
     if key in memo:
         return memo[key][:2]
     side_obligation("def:divisor-nonzero", tb != 0)
     q, r = fresh_int("q"), fresh_int("r")
-    memo[key] = (q, r, ta, tb)
-    define(ta == q * tb + r)
-    define(z3.If(tb > 0, z3.And(r >= 0, r < tb), z3.And(r <= 0, r > tb)))
+    memo[key] = (q, r, sa, cb)
+    cons = z3.And(sa == q * cb + r, z3.If(cb > 0, z3.And(r >= 0, r < cb), z3.And(r <= 0, r > cb)))
+    if c.binders:
+        # inside a generic loop iteration the witnesses are functions of the loop variables:
+        # they become (functionally defined) bound variables of the comprehension, not global constants
+        c.binders.append(DefBinder(q, r, sa, cb, cons))
+    else:
+        define(cons)
     return q, r
+
+
+class DefBinder:
+    """q, r := divmod(a, d): bound variables that are functions of earlier bound variables"""
+    kind = "def"
+
+    def __init__(self, q, r, a, d, cons):
+        self.q, self.r, self.a, self.d, self.cons = q, r, a, d, cons
+
+    def range_cond(self):
+        return self.cons
+
+
+def _divmod_global(ta, tb):
+    """divmod witnesses as global constants even when called while loop variables are active"""
+    c = cur()
+    saved, c.binders = c.binders, []
+    try:
+        return _divmod(ta, tb)
+    finally:
+        c.binders = saved
 
 
 def sym_floordiv(a, b):
